@@ -574,6 +574,10 @@ impl SyncWorld {
                     account.delete_secret(&s0, (&folder).into()).await?;
                     json!({"k": "del", "who": "-", "n": "0"})
                 }
+                "desc" => {
+                    account.set_folder_description(&folder, format!("description by {dname} #{k}")).await?;
+                    json!({"k": "desc", "who": dname, "n": k.to_string()})
+                }
                 "ren" => {
                     account.rename_folder(&folder, name.to_string()).await?;
                     json!({"k": "ren", "who": "-", "n": name})
